@@ -339,28 +339,87 @@ func (x *Exec) model(st *State, fr *Frame, in *ssa.Call, callee *ssa.Function, a
 		return Val{T: rt}, true
 	case name == "encoding/binary.Uvarint", name == "encoding/binary.Varint":
 		used()
-		// (value, n): n <= len(buf); n == 0 iff buffer too small; n < 0 overflow
-		r := x.fresh(st, rt, "vi")
-		n := r.Tup[1].S
+		// exact LEB128 decoding of at most 10 bytes, as an ite chain (no quantifiers):
+		// (value, n): n == 0 buffer too small, n < 0 overflow (value 0 in both cases)
 		b := a(0)
-		x.assume(st, And("(<= "+n+" (s_len "+b+"))", "(>= "+n+" (- 10))", "(<= "+n+" 10)", Imp("(= (s_len "+b+") 0)", "(= "+n+" 0)"), Imp("(<= "+n+" 0)", "(= "+r.Tup[0].S+" 0)")))
-		x.varintAxioms(st, name, b, r)
-		return r, true
+		bt := types.Typ[types.Uint8]
+		byteAt := func(k int) string {
+			return x.S.Define("vb", "Int", x.heapLoad(st, bt, "(s_reg "+b+")", fmt.Sprintf("(+ (s_off %s) %d)", b, k)))
+		}
+		// build from the last byte backwards: res_k(acc) for position k
+		var build func(k int, acc string) (val, n string)
+		build = func(k int, acc string) (string, string) {
+			if k == 10 {
+				// an eleventh byte after ten continuation bytes: overflow; none: buffer exhausted
+				return "0", Ite("(< 10 (s_len "+b+"))", "(- 11)", "0")
+			}
+			bk := byteAt(k)
+			p := pow2(7 * k).String()
+			small := "(< " + bk + " 128)"
+			doneVal := "(+ " + acc + " (* " + bk + " " + p + "))"
+			doneN := fmt.Sprintf("%d", k+1)
+			if k == 9 {
+				// tenth byte may only be 0 or 1
+				ovfl := "(> " + bk + " 1)"
+				doneVal = Ite(ovfl, "0", doneVal)
+				doneN = Ite(ovfl, "(- 10)", doneN)
+			}
+			nacc := x.S.Define("vacc", "Int", "(+ "+acc+" (* (- "+bk+" 128) "+p+"))")
+			rv, rn := build(k+1, nacc)
+			have := fmt.Sprintf("(< %d (s_len %s))", k, b)
+			return Ite(have, Ite(small, doneVal, rv), "0"), Ite(have, Ite(small, doneN, rn), "0")
+		}
+		uv, un := build(0, "0")
+		uvd := x.S.Define("uv", "Int", uv)
+		und := x.S.Define("un", "Int", un)
+		tup := rt.(*types.Tuple)
+		if name == "encoding/binary.Uvarint" {
+			return Val{Tup: []Val{{S: uvd, T: tup.At(0).Type()}, {S: und, T: tup.At(1).Type()}}, T: rt}, true
+		}
+		// zig-zag: even -> ux/2, odd -> -(ux+1)/2
+		sv := x.S.Define("sv", "Int", Ite("(= (mod "+uvd+" 2) 0)", "(div "+uvd+" 2)", "(- (div (+ "+uvd+" 1) 2))"))
+		return Val{Tup: []Val{{S: sv, T: tup.At(0).Type()}, {S: und, T: tup.At(1).Type()}}, T: rt}, true
 	case name == "encoding/binary.PutUvarint", name == "encoding/binary.PutVarint":
 		used()
+		// exact LEB128 encoding: base-128 digits d_0..d_9 of the (zig-zagged) value,
+		// n = number of significant digits (at least 1), continuation bit on all but the last
 		b := a(0)
 		x.oblige(st, fr, in, "idx", "(<= 10 (s_len "+b+"))", name+": buffer may be too small")
-		r := x.fresh(st, rt, "pv")
-		x.assume(st, And("(<= 1 "+r.S+")", "(<= "+r.S+" 10)"))
+		v := a(1)
+		if name == "encoding/binary.PutVarint" {
+			v = x.S.Define("zz", "Int", Ite("(>= "+v+" 0)", "(* 2 "+v+")", "(- (* (- 2) "+v+") 1)"))
+		}
+		var dg, terms, rng []string
+		for k := 0; k < 10; k++ {
+			d := x.S.Const("vd", "Int")
+			dg = append(dg, d)
+			rng = append(rng, "(<= 0 "+d+")", "(<= "+d+" 127)")
+			terms = append(terms, "(* "+d+" "+pow2(7*k).String()+")")
+		}
+		x.assume(st, And(append(rng, "(= "+v+" (+ "+strings.Join(terms, " ")+"))")...))
+		// n = number of significant base-128 digits (1 when the value is 0)
+		n := x.S.Const("pvn", "Int")
+		var nc []string
+		nc = append(nc, "(<= 1 "+n+")", "(<= "+n+" 10)")
+		for k := 1; k <= 10; k++ {
+			lo := pow2(7 * (k - 1)).String()
+			hi := pow2(7 * k).String()
+			if k == 1 {
+				nc = append(nc, Imp("(< "+v+" "+hi+")", "(= "+n+" 1)"))
+			} else {
+				nc = append(nc, Imp(And("(>= "+v+" "+lo+")", "(< "+v+" "+hi+")"), fmt.Sprintf("(= %s %d)", n, k)))
+			}
+		}
+		x.assume(st, And(nc...))
 		bt := types.Typ[types.Uint8]
-		h := x.heap(st, bt)
-		fa := x.S.Const("pvb", "(Array Int Int)")
-		x.setHeap(st, bt, "(store "+h+" (s_reg "+b+") "+fa+")")
-		q := x.S.Fresh("qi")
-		x.assume(st, fmt.Sprintf("(forall ((%s Int)) (! (=> (or (< %s (s_off %s)) (>= %s (+ (s_off %s) %s))) (= (select %s %s) (select (select %s (s_reg %s)) %s))) :pattern ((select %s %s))))",
-			q, q, b, q, b, r.S, fa, q, h, b, q, fa, q))
-		x.assume(st, fmt.Sprintf("(forall ((%s Int)) (! (and (<= 0 (select %s %s)) (<= (select %s %s) 255)) :pattern ((select %s %s))))", q, fa, q, fa, q, fa, q))
-		return r, true
+		for k := 0; k < 10; k++ {
+			// byte k is written only when k < n
+			old := x.heapLoad(st, bt, "(s_reg "+b+")", fmt.Sprintf("(+ (s_off %s) %d)", b, k))
+			oldD := x.S.Define("pvo", "Int", old)
+			val := Ite(fmt.Sprintf("(< %d %s)", k, n), Ite(fmt.Sprintf("(< %d (- %s 1))", k, n), "(+ "+dg[k]+" 128)", dg[k]), oldD)
+			x.heapStore(st, bt, "(s_reg "+b+")", fmt.Sprintf("(+ (s_off %s) %d)", b, k), val)
+		}
+		return Val{S: n, T: rt}, true
 	case name == "encoding/binary.AppendUvarint", name == "encoding/binary.AppendVarint":
 		used()
 		return x.appendUnknown(st, args[0], rt, 1, 10), true
